@@ -3,7 +3,7 @@ use anyhow::Result;
 use crate::{
     instruction,
     parser::{Node, Parser},
-    VecErr,
+    CompilationError, VecErr,
 };
 
 use super::{new_err, Compile, Dependencies, IntoType, TypeLayout, TypecheckFlags, Value};
@@ -151,7 +151,8 @@ impl Parser {
 
                     let key_type = key
                         .for_type(&TypecheckFlags::use_class(maybe_class_type.as_ref()))
-                        .unwrap();
+                        .details(key_span, &input.user_data().get_source_file_name(), "the type of this key cannot be determined")
+                        .to_err_vec()?;
 
                     if !key_type.eq_complex(
                         map_type.key_type(),
@@ -162,7 +163,8 @@ impl Parser {
 
                     let value_type = value
                         .for_type(&TypecheckFlags::use_class(maybe_class_type.as_ref()))
-                        .unwrap();
+                        .details(value_span, &input.user_data().get_source_file_name(), "the type of this value cannot be determined")
+                        .to_err_vec()?;
 
                     if !value_type.eq_complex(
                         map_type.value_type(),
